@@ -87,10 +87,12 @@ PartB(n, full) ==
      : d \in Dags(n),
        r \in IF full \/ n <= 3 THEN Perms(n) ELSE {Identity(n), Rev(Identity(n)), Rot(n, 1), Rev(Rot(n, 2))}}
 \* C: every DAG x declared with_model_type per class
+\* "bare" = @serialization() without with_model_type: the class has a setting object that says nothing
 WmtChoices(n, full) ==
-    IF n <= 3 THEN [1..n -> {"none", "true", "false"}]
-    ELSE IF full THEN [1..n -> {"none", "true"}]
+    IF n <= 3 THEN [1..n -> {"none", "true", "false", "bare"}]
+    ELSE IF full THEN [1..n -> {"none", "true", "bare"}]
     ELSE {Const(n, "true")} \cup {[c \in 1..n |-> IF c = k THEN "true" ELSE "none"] : k \in 1..n}
+         \cup {[c \in 1..n |-> IF c = k THEN "true" ELSE "bare"] : k \in 1..n}
 PartC(n, full) ==
     {Case(Hier(d, TRUE, AllClass(n), AbsButLast(n), Const(n, 1), Const(n, 0), Const(n, 0), w, "super_first"),
           Identity(n), "super_first", "C")
